@@ -30,9 +30,11 @@ def pkgdir(path):
 
 def main():
     for pid in sys.argv[1:]:
-        for mdir in sorted(glob.glob(f"/tmp/wt/{pid}/out/m*")):
+        base = os.environ.get("WT_BASE", "/tmp/wt")
+        tag = os.environ.get("ID_TAG", "")
+        for mdir in sorted(glob.glob(f"{base}/{pid}/out/m*")):
             k = os.path.basename(mdir)
-            sid = f"{pid}-{k}"
+            sid = f"{pid}-{tag}{k}"
             patch = os.path.join(mdir, "patch.diff")
             if not os.path.exists(patch):
                 print(sid, "no patch"); continue
